@@ -367,6 +367,8 @@ def build(cfg, world, shared=None):
         kw['cash_buffer_percentage'] = cfg['buffer']
     else:
         kw['gross_leverage'] = cfg['leverage']
+    if cfg.get('portfolio_id'):
+        kw['portfolio_id'] = cfg['portfolio_id']          # documented optional argument (also an id equal to a report key)
     default_handler = (cfg.get('default_handler') and world.adjust and getattr(world, 'extra', None) is None
                        and (shared is None or 'handler' not in shared) and signals is None)
     old_env = os.environ.get('QSTRADER_CSV_DATA_DIR')
@@ -969,6 +971,7 @@ def gen_cfg(rng, alpha_kinds=('fixed',), universe_kinds=('static',), max_days=25
     cfg['market'] = mk
     cfg['loud'] = rng.random() < 0.2          # the library's event printing left at its default (on)
     cfg['tz_mix'] = rng.choice([None, None, None, 'start', 'end'])
+    cfg['portfolio_id'] = rng.choice([None] * 6 + ['master', 'p-1'])
     cfg['default_handler'] = rng.random() < 0.35      # no data handler passed: the session builds its own from the environment
     ukind = rng.choice(universe_kinds)
     if ukind == 'static':
